@@ -315,12 +315,18 @@ func suiteSpacing(o *Out, thorough bool, seed int64) {
 		for v := 0; v < 3; v++ {
 			var sb strings.Builder
 			okVariant := true
+			brokeLine := false
 			for j, l := range lex {
 				if j > 0 {
 					sep := separators[r.Intn(len(separators))]
 					// a line break may not precede . !. ( : keep those gaps free of line breaks
+					// (one variant in four keeps the break there: no claim about it, the model decides)
 					if strings.ContainsAny(sep, "\n\r\u2028\u2029\u0085") && (l == "." || l == "!." || l == "(") {
-						sep = " "
+						if v == 2 && r.Intn(2) == 0 {
+							brokeLine = true
+						} else {
+							sep = " "
+						}
 					}
 					sb.WriteString(sep)
 				}
@@ -330,6 +336,9 @@ func suiteSpacing(o *Out, thorough bool, seed int64) {
 			toks, _ := implScan([]byte(text))
 			if kindsOf(toks) != kindsOf(baseToks) {
 				okVariant = false // the chosen empty separators merged tokens: not a re-spacing of the same tokens
+			}
+			if brokeLine {
+				okVariant = false
 			}
 			obs := emitParse(o, []byte(text), true)
 			if okVariant && treeShape(obs) != treeShape(baseObs) {
